@@ -347,7 +347,9 @@ def mon_ledger(h, obs, prop):
             unflushed, uncommitted = False, True
         if k0 in ("set", "add", "del"):
             a, k = ws[1], ws[2]
-            v = None if k0 == "del" else ("" if ws[3] == "~" else ws[3])
+            # an empty value is no value: since the fix: commit "a storage key with an empty value does not exist" writing
+            # "" is a delete on every read path (before, it was present until the caches were dropped)
+            v = None if k0 == "del" or ws[3] == "~" else ws[3]
             # AddState is journaled like SetState (since the fix: commit "journal AddState")
             ref.journal.append(("st", (a, k), ref.st.get((a, k))))
             ref.st[(a, k)] = v
